@@ -8,8 +8,12 @@ mod c04;
 mod c05;
 mod c06;
 mod c07;
+mod c08;
+mod c09;
 mod c10;
 mod c11;
+mod c12;
+mod c16;
 mod common;
 mod lifecycle;
 
@@ -28,8 +32,12 @@ fn main() {
         "C05" => vsched::report::run_property(rest, &c05::plan),
         "C06" => vsched::report::run_property(rest, &c06::plan),
         "C07" => vsched::report::run_property(rest, &c07::plan),
+        "C08" => vsched::report::run_property(rest, &c08::plan),
+        "C09" => vsched::report::run_property(rest, &c09::plan),
         "C10" => vsched::report::run_property(rest, &c10::plan),
         "C11" => vsched::report::run_property(rest, &c11::plan),
+        "C12" => vsched::report::run_property(rest, &c12::plan),
+        "C16" => vsched::report::run_property(rest, &c16::plan),
         _ => {
             eprintln!("unknown property {prop}");
             2
